@@ -133,11 +133,10 @@ func plan(r *vk.Run) []*cfg {
 		add(pmemFF, keysFull, two, 1, 4, 400, 0)
 		add(pmemAlone, keysFull, two, 1, 3, 100, 0)
 		add(mem, keysMid, two, 1, 5, 2000, 0)
-		add(pmem, keysMid, two, 1, 5, 2000, 0)
 		add(fsdb, keysFull, two, 3, 4, 200, 0)
 		add(bolt, keysFull, two, 3, 3, 100, 0)
 		add(bolt, keysMid, two, 1, 4, 400, 0)
-		add(ldb, keysFull, two, 3, 3, 200, 0)
+		add(ldb, keysMid, two, 3, 3, 100, 0)
 		add(ldb, keysSmall, two, 1, 4, 400, 0)
 		add(badger, keysMid, three, 1, 3, 50, 0)
 		add(badger, keysSmall, two, 3, 3, 50, 0)
